@@ -201,6 +201,27 @@ func c05oracle(m *ordered.MapSS, ref plist, probe []string, full, withYAML bool)
 			return fmt.Sprintf("ToMap[%q]=%q,%v", p.k, v, ok)
 		}
 	}
+	// conversions to maps of another value type keep keys, order and (converted) values
+	tv := ordered.TransformValues(m, func(v string) any { return "<" + v + ">" })
+	if tv.Len() != len(ref) {
+		return fmt.Sprintf("TransformValues has %d entries want %d", tv.Len(), len(ref))
+	}
+	ti := 0
+	tbad := ""
+	tv.Range(func(k string, v any) error {
+		if ti >= len(ref) || k != ref[ti].k || v != any("<"+ref[ti].v+">") {
+			tbad = fmt.Sprintf("TransformValues entry %d is %q=%v", ti, k, v)
+		}
+		ti++
+		return nil
+	})
+	if tbad != "" {
+		return tbad
+	}
+	av, aerr := ordered.AssertValues[string](ordered.TransformValues(m, func(v string) any { return v }))
+	if aerr != nil || !ordered.Equal(av, m) {
+		return fmt.Sprintf("AssertValues of the same entries gives a different map (err=%v)", aerr)
+	}
 	jb, err := m.MarshalJSON()
 	if err != nil {
 		return "MarshalJSON error " + err.Error()
